@@ -399,6 +399,14 @@ class HtmlToAst(HTMLParser):
         super().feed(source)
         return self.struct.outmost
 
+    def parse_marked_section(self, i: int, report: int = 1) -> int:
+        try:
+            return super().parse_marked_section(i, report)
+        except AssertionError:
+            # the stdlib raises for an unknown marked section, e.g. ``<![a ]>``;
+            # treat it as a bogus comment, as the HTML5 specification does
+            return self.parse_bogus_comment(i, report)
+
     def handle_starttag(self, name: str, attr):
         """When found an opening tag then nest it onto the tree."""
         if name in self.void_elements:
